@@ -289,6 +289,8 @@ func (inv *Invoice) Calculate() error {
 	// Try to set Regime if not already prepared from the supplier's tax ID
 	if inv.Regime.IsEmpty() {
 		inv.SetRegime(partyTaxCountry(inv.Supplier))
+	} else {
+		inv.NormalizeRegime()
 	}
 
 	inv.Normalize(tax.ExtractNormalizers(inv))
